@@ -45,6 +45,7 @@ func fresh(x any) bool                             { panic("spec") }
 func has[K comparable, V any](m map[K]V, k K) bool { _, ok := m[k]; return ok }
 func heldPolicy() bool                             { panic("spec") }
 func heldShard() bool                              { panic("spec") }
+func goexited() bool                               { panic("spec") }
 func heldShardR() bool                             { panic("spec") }
 func heldToken() bool                              { panic("spec") }
 func loaded[T any](x T) T                          { panic("spec") }
